@@ -449,6 +449,8 @@ fn import_sites(rep: &mut Report) {
         let srcs = vec![
             format!("Prov-Mod DEFINITIONS AUTOMATIC TAGS ::= BEGIN\n{n} ::= INTEGER (0..7)\nEND\n"),
             format!("User-Mod DEFINITIONS AUTOMATIC TAGS ::= BEGIN\nIMPORTS {n} FROM Prov-Mod;\nHolder{k} ::= SEQUENCE {{ f {n} }}\nEND\n"),
+            // the same type named with its module in front: as component, as the governor of a value, with a DEFAULT
+            format!("Qual-Mod DEFINITIONS AUTOMATIC TAGS ::= BEGIN\nQh{k} ::= SEQUENCE {{ f Prov-Mod.{n}, g Prov-Mod.{n} DEFAULT 2 }}\nqual-val{k} Prov-Mod.{n} ::= 3\nEND\n"),
         ];
         rep.evaluations += 1;
         rep.count("import-site");
@@ -476,6 +478,22 @@ fn import_sites(rep: &mut Report) {
                         if !prov.contains(sym) {
                             rep.unsat("", false, json!({"why": format!("the use line names `{sym}` for the imported type `{n}`; the providing module declares {:?}", prov.iter().filter(|p| *p != "use" && *p != "extern").collect::<Vec<_>>()), "case": case}));
                         }
+                    }
+                    // the module-qualified mentions: every path ends in an item the provider declares
+                    let qual = mods.iter().find(|(m, _)| m == "qualmod").map(|(_, it)| it.clone()).unwrap_or_default();
+                    let mut seen_q = 0;
+                    for (id, text) in qual.iter().filter(|(id, _)| id == &format!("Qh{k}") || id.to_uppercase() == format!("QUAL_VAL{k}")) {
+                        let sq: String = text.chars().filter(|c| !c.is_whitespace()).collect();
+                        for (at, _) in sq.match_indices("prov_mod::") {
+                            seen_q += 1;
+                            let name: String = sq[at + 10..].chars().take_while(|c| c.is_alphanumeric() || *c == '_').collect();
+                            if !prov.contains(&name) {
+                                rep.unsat("", false, json!({"why": format!("`{id}` mentions `prov_mod::{name}` for `Prov-Mod.{n}`; the providing module declares {:?}", prov.iter().filter(|p| *p != "use" && *p != "extern").collect::<Vec<_>>()), "case": case}));
+                            }
+                        }
+                    }
+                    if seen_q < 2 {
+                        rep.unsat("", false, json!({"why": format!("the items of the module that writes `Prov-Mod.{n}` do not name the provider's item by path (items: {:?})", qual.iter().map(|x| x.0.clone()).collect::<Vec<_>>()), "case": case}));
                     }
                     // and the field mentions the same item
                     if let Some((_, text)) = user.iter().find(|(id, _)| id == &format!("Holder{k}")) {
